@@ -24,4 +24,17 @@ theorem connect_error_releases_record :
     (acceptConn leakScripts noHook (acceptConn leakScripts noHook {} 1).1 2).1.crashed = none := by
   decide
 
+def refScripts : Scripts :=
+  { hook := fun _ _ => [], connect := fun k => if k = 1 then .err else if k = 2 then .err else if k = 3 then .rej else .ok }
+
+/-- the extra reference connection set-up takes on the master is given back on every path: two failing connect()s
+    in a row, a rejected and an accepted connection leave the (relative) count at 0 - after each of them -/
+theorem connect_refs_balanced :
+    (acceptConn refScripts noHook {} 1).1.masterRef = 0 ∧
+    (acceptConn refScripts noHook (acceptConn refScripts noHook {} 1).1 2).1.masterRef = 0 ∧
+    (acceptConn refScripts noHook (acceptConn refScripts noHook (acceptConn refScripts noHook {} 1).1 2).1 3).1.masterRef = 0 ∧
+    (acceptConn refScripts noHook (acceptConn refScripts noHook (acceptConn refScripts noHook
+      (acceptConn refScripts noHook {} 1).1 2).1 3).1 4).1.masterRef = 0 := by
+  decide
+
 end NV.C09
